@@ -23,6 +23,7 @@ import (
 func init() {
 	register("TransportSkel", genTransportSkel)
 	register("ServerSkel", genServerSkel)
+	register("DialSkel", genDialSkel)
 }
 
 type skelFn struct{ recv, name string }
@@ -351,6 +352,14 @@ func genTransportSkel(repo string) (string, error) {
 		{"", "newEndpoint"}, {"Endpoint", "sendAccept"}, {"Endpoint", "serve"}, {"Endpoint", "Accept"}, {"Endpoint", "Close"},
 		{"connMailBox", "Close"}, {"connMailBox", "receive"}, {"connMailBox", "deliver"},
 		{"closerOnce", "Close"},
+		// the endpoint's dial handlers, its connection set and its serve loop
+		{"endpointServer", "handleDial"}, {"endpointServer", "handleDialSide2"}, {"endpointServer", "handleDialSide"},
+		{"endpointServer", "findSession"}, {"endpointServer", "handleClose"},
+		{"endpointServer", "cleanup"}, {"endpointServer", "serve"},
+		{"connections", "add"}, {"connections", "get"}, {"connections", "remove"}, {"connections", "shutdown"},
+		{"", "newConnection"}, {"connection", "cleanup"},
+		// the side dial's hand-over on the server
+		{"connMailBox", "cleanUp"}, {"connMailBox", "discard"}, {"sideConn", "wait"}, {"Server", "serveBackSide"},
 	}
 	emitSkel(&b, "gen_transport", []*pkg{p, q}, [][]skelFn{fns, {{"", "JoinConn"}}})
 
@@ -496,5 +505,257 @@ func genServerSkel(repo string) (string, error) {
 		}
 	}
 	fmt.Fprintf(&b, "Definition gen_endpoints_uses : list (string * list (string * bool)) :=\n  %s.\n", coqList(uses))
+	return b.String(), nil
+}
+
+// ---- Dial handlers: who closes the connection on which exit -------------------------------
+
+// The dial handlers of the endpoint (endpointServer.handleDial and
+// handleDialSide2) create a connection, hand it to the application through
+// acceptConn and -- handleDial only -- register it in the connection set.
+// What matters for shutdown is which exits of the handler close the
+// connection.  The body is translated statement by statement into the small
+// vocabulary of Sni/DialSkel.v, with respect to ONE variable: the one that
+// receives the result of the creating call (newConnection / s.sideConn).
+//
+//	HNew                      v := newConnection(..)
+//	HNewOrFail [..]           v, err := s.sideConn(..); if err != nil { .. }
+//	HDeferCloseIfSet          defer func() { if v != nil { v.cleanup() } }()
+//	HDeferClose               defer v.cleanup() | defer v.Close()
+//	HClose                    v.cleanup() | v.Close()
+//	HDisown                   v = nil
+//	HIfFails CAccept [..]     if err := s.acceptConn(<expr with v>); err != nil { .. }
+//	HIfFails CAdd [..]        if err := s.conns.add(v); err != nil { .. }
+//	HIf "cond" [..]           any other if without else
+//	HReturn                   return <expr without v>
+//	HSkip "text"              a statement that does not mention v
+//	HUnknown "text"           anything else that mentions v
+//
+// Nothing is decided here; Sni/DialSkel.v executes the statements
+// symbolically and Sni/ShutdownDialGen.v states what must come out.
+
+type dialWalker struct {
+	p *pkg
+	v string // the connection variable ("" until the creating statement was seen)
+}
+
+func mentions(n ast.Node, name string) bool {
+	if name == "" || n == nil {
+		return false
+	}
+	found := false
+	ast.Inspect(n, func(m ast.Node) bool {
+		if id, ok := m.(*ast.Ident); ok && id.Name == name {
+			found = true
+		}
+		return true
+	})
+	return found
+}
+
+// creatingCall recognises newConnection(..) and s.sideConn(..).
+func creatingCall(e ast.Expr) bool {
+	c, ok := e.(*ast.CallExpr)
+	if !ok {
+		return false
+	}
+	switch f := c.Fun.(type) {
+	case *ast.Ident:
+		return f.Name == "newConnection"
+	case *ast.SelectorExpr:
+		return f.Sel.Name == "sideConn"
+	}
+	return false
+}
+
+// closeCallOn recognises v.cleanup() and v.Close().
+func (w *dialWalker) closeCallOn(e ast.Expr) bool {
+	c, ok := e.(*ast.CallExpr)
+	if !ok || len(c.Args) != 0 {
+		return false
+	}
+	se, ok := c.Fun.(*ast.SelectorExpr)
+	if !ok || (se.Sel.Name != "cleanup" && se.Sel.Name != "Close") {
+		return false
+	}
+	id, ok := se.X.(*ast.Ident)
+	return ok && id.Name == w.v && w.v != ""
+}
+
+func errIsNotNil(e ast.Expr) bool {
+	b, ok := e.(*ast.BinaryExpr)
+	if !ok || b.Op != token.NEQ {
+		return false
+	}
+	x, ok1 := b.X.(*ast.Ident)
+	y, ok2 := b.Y.(*ast.Ident)
+	return ok1 && ok2 && x.Name == "err" && y.Name == "nil"
+}
+
+func (w *dialWalker) list(ss []ast.Stmt) string {
+	var out []string
+	for i := 0; i < len(ss); i++ {
+		s := ss[i]
+		// v, err := s.sideConn(..) followed by if err != nil { .. }
+		if as, ok := s.(*ast.AssignStmt); ok && as.Tok == token.DEFINE && len(as.Lhs) == 2 && len(as.Rhs) == 1 &&
+			creatingCall(as.Rhs[0]) && w.v == "" && i+1 < len(ss) {
+			if id, ok := as.Lhs[0].(*ast.Ident); ok {
+				if ifs, ok := ss[i+1].(*ast.IfStmt); ok && ifs.Init == nil && ifs.Else == nil && errIsNotNil(ifs.Cond) {
+					// the failure branch runs without a connection
+					body := w.list(ifs.Body.List)
+					w.v = id.Name
+					out = append(out, "HNewOrFail "+body)
+					i++
+					continue
+				}
+			}
+		}
+		out = append(out, w.stmt(s))
+	}
+	return "[" + strings.Join(out, "; ") + "]"
+}
+
+func (w *dialWalker) stmt(s ast.Stmt) string {
+	unknown := func() string { return "HUnknown " + coqStr(w.p.src(s)) }
+	skipOrUnknown := func() string {
+		if mentions(s, w.v) {
+			return unknown()
+		}
+		return "HSkip " + coqStr(w.p.src(s))
+	}
+	switch x := s.(type) {
+	case *ast.AssignStmt:
+		if x.Tok == token.DEFINE && len(x.Lhs) == 1 && len(x.Rhs) == 1 && creatingCall(x.Rhs[0]) {
+			if id, ok := x.Lhs[0].(*ast.Ident); ok && w.v == "" {
+				w.v = id.Name
+				return "HNew"
+			}
+			return unknown()
+		}
+		if x.Tok == token.ASSIGN && len(x.Lhs) == 1 && len(x.Rhs) == 1 {
+			l, ok1 := x.Lhs[0].(*ast.Ident)
+			r, ok2 := x.Rhs[0].(*ast.Ident)
+			if ok1 && ok2 && l.Name == w.v && w.v != "" && r.Name == "nil" {
+				return "HDisown"
+			}
+		}
+		if len(x.Rhs) == 1 && creatingCall(x.Rhs[0]) {
+			return unknown() // a second connection, or a shape not listed above
+		}
+		return skipOrUnknown()
+	case *ast.ExprStmt:
+		if isLogCall(x.X) {
+			return "HSkip " + coqStr("log")
+		}
+		if w.closeCallOn(x.X) {
+			return "HClose"
+		}
+		return skipOrUnknown()
+	case *ast.DeferStmt:
+		if w.closeCallOn(x.Call) {
+			return "HDeferClose"
+		}
+		if fl, ok := x.Call.Fun.(*ast.FuncLit); ok && len(x.Call.Args) == 0 && len(fl.Body.List) == 1 {
+			// defer func() { if v != nil { v.cleanup() } }()
+			if ifs, ok := fl.Body.List[0].(*ast.IfStmt); ok && ifs.Init == nil && ifs.Else == nil && len(ifs.Body.List) == 1 {
+				if b, ok := ifs.Cond.(*ast.BinaryExpr); ok && b.Op == token.NEQ {
+					l, ok1 := b.X.(*ast.Ident)
+					r, ok2 := b.Y.(*ast.Ident)
+					if es, ok3 := ifs.Body.List[0].(*ast.ExprStmt); ok1 && ok2 && ok3 && l.Name == w.v && w.v != "" &&
+						r.Name == "nil" && w.closeCallOn(es.X) {
+						return "HDeferCloseIfSet"
+					}
+				}
+			}
+		}
+		return skipOrUnknown()
+	case *ast.IfStmt:
+		if x.Else != nil {
+			return unknown()
+		}
+		if x.Init != nil {
+			as, ok := x.Init.(*ast.AssignStmt)
+			if !ok || len(as.Rhs) != 1 || !errIsNotNil(x.Cond) {
+				return unknown()
+			}
+			call, ok := as.Rhs[0].(*ast.CallExpr)
+			if !ok {
+				return unknown()
+			}
+			kind := "COtherCall " + coqStr(w.p.src(call))
+			switch w.p.src(call.Fun) {
+			case "s.acceptConn":
+				if len(call.Args) == 1 && mentions(call.Args[0], w.v) {
+					kind = "CAccept"
+				}
+			case "s.conns.add":
+				if len(call.Args) == 1 {
+					if id, ok := call.Args[0].(*ast.Ident); ok && id.Name == w.v && w.v != "" {
+						kind = "CAdd"
+					}
+				}
+			}
+			if strings.HasPrefix(kind, "COtherCall") && mentions(call, w.v) {
+				return unknown()
+			}
+			return "HIfFails " + maybeParen(kind) + " " + w.list(x.Body.List)
+		}
+		if mentions(x.Cond, w.v) {
+			return unknown()
+		}
+		return "HIf " + coqStr(w.p.src(x.Cond)) + " " + w.list(x.Body.List)
+	case *ast.ReturnStmt:
+		if mentions(s, w.v) {
+			return unknown()
+		}
+		return "HReturn"
+	case *ast.BlockStmt:
+		return unknown()
+	}
+	return skipOrUnknown()
+}
+
+func maybeParen(s string) string {
+	if strings.Contains(s, " ") {
+		return "(" + s + ")"
+	}
+	return s
+}
+
+func genDialSkel(repo string) (string, error) {
+	p, err := loadPkg(filepath.Join(repo, "sniproxy"))
+	if err != nil {
+		return "", err
+	}
+	var b strings.Builder
+	b.WriteString("(* GENERATED by /verif/gen from /repo on every run. Do not edit. *)\n" +
+		"From Coq Require Import List String.\nFrom Verif Require Import Sni.DialSkel.\n" +
+		"Import ListNotations.\nLocal Open Scope string_scope.\n\n")
+	for _, f := range []skelFn{{"endpointServer", "handleDial"}, {"endpointServer", "handleDialSide2"}} {
+		fd := p.funcDecl(f.recv, f.name)
+		body := `[HUnknown "function not found"]`
+		if fd != nil && fd.Body != nil {
+			w := &dialWalker{p: p}
+			body = w.list(fd.Body.List)
+		}
+		fmt.Fprintf(&b, "Definition gen_%s : list hstmt :=\n  %s.\n\n", f.name, body)
+	}
+	// which message types reach which handler (serveCall's switch)
+	var routes []string
+	if fd := p.funcDecl("endpointServer", "serveCall"); fd != nil && fd.Body != nil {
+		ast.Inspect(fd.Body, func(n ast.Node) bool {
+			cc, ok := n.(*ast.CaseClause)
+			if !ok || len(cc.List) != 1 || len(cc.Body) != 1 {
+				return true
+			}
+			if as, ok := cc.Body[0].(*ast.AssignStmt); ok && len(as.Rhs) == 1 {
+				if call, ok := as.Rhs[0].(*ast.CallExpr); ok {
+					routes = append(routes, fmt.Sprintf("(%s, %s)", coqStr(p.src(cc.List[0])), coqStr(p.src(call.Fun))))
+				}
+			}
+			return true
+		})
+	}
+	fmt.Fprintf(&b, "Definition gen_serveCall_routes : list (string * string) :=\n  %s.\n", coqList(routes))
 	return b.String(), nil
 }
